@@ -79,10 +79,28 @@ def record_one(rng, nthreads, nops, chooser):
         for t in plan:
             s.spawn(t, worker, t)
 
-    with coop.installed(s, threading_modules=('s3transfer.futures',
-                                              's3transfer.utils'),
-                        time_modules=()):
-        s.run(main, name='main')
+    # the lock-free reads of the coordinator (status, exception) are
+    # scheduling points: another thread may run between two such reads
+    TC = F.TransferCoordinator
+    saved = {}
+    for prop in ('status', 'exception'):
+        orig = TC.__dict__.get(prop)
+        if isinstance(orig, property) and orig.fset is None:
+            saved[prop] = orig
+
+            def getter(self, _o=orig):
+                if s.me() is not None:
+                    s.point('racy-read')
+                return _o.fget(self)
+            setattr(TC, prop, property(getter))
+    try:
+        with coop.installed(s, threading_modules=('s3transfer.futures',
+                                                  's3transfer.utils'),
+                            time_modules=()):
+            s.run(main, name='main')
+    finally:
+        for prop, orig in saved.items():
+            setattr(TC, prop, orig)
     return events, plan, s.failure, s.thread_errors
 
 
